@@ -114,8 +114,11 @@ def c19_py_computed(prop="C19", tier="quick", seed=0, **kw):
         j["harness"] = "harness.py.c19numpy:" + h
         return j
     from harness.py import generated as _HG
-    _HG.prepare(["c19computed"])
-    gtypes = _HG._GEN["c19computed"]["nat"].types
+    try:
+        _HG.prepare(["c19computed"])      # the generated classes tell which operator / element type combinations the model has
+        gtypes = _HG._GEN["c19computed"]["nat"].types
+    except Exception:
+        gtypes, nrecs = None, []          # _run below reports the failed generation stage
     for rec in nrecs:
         for f in CN.NP_FIELDS:
             if not hasattr(getattr(gtypes, rec), f):
